@@ -283,6 +283,31 @@ MUTANTS = [
      [("src/msgpack.rs", "matches!(marker, 0x80..=0x9f | 0xdc..=0xdf)", "matches!(marker, 0x80..=0x9f | 0xd9..=0xdf)")]),
     ("t04-end-error-unrecorded", "violations", "T04", "C11", "R11.2", "end() failure replaced by the generic error without capturing it",
      [("src/transcode/stream.rs", "\t\tseq.end().map_err(|ser_err| {\n\t\t\tself.0.capture_error(ErrorSource::Ser, ser_err);\n\t\t\tde::Error::custom(TRANSLATION_FAILED)\n\t\t})", "\t\tseq.end().map_err(|_| de::Error::custom(TRANSLATION_FAILED))")]),
+    # round 8: mutants on top of the repaired refactorings benign-Uxx
+    ("u11-merge-on-ok", "violations", "U11", "C11", "R11.4", "finish_step merges the seed's state when the step succeeded instead of when it failed",
+     [("src/transcode/stream.rs", "\t\tif outcome.is_err() {\n\t\t\tself.0.capture_child_error(seed);", "\t\tif outcome.is_ok() {\n\t\t\tself.0.capture_child_error(seed);")]),
+    ("u13-check-inverted", "violations", "U13", "C16", "R16.2", "checked() terminates on every error except a broken pipe",
+     [("src/pipecheck.rs", "\t\t\tif is_broken_pipe(err) {\n\t\t\t\tsys::terminate();", "\t\t\tif !is_broken_pipe(err) {\n\t\t\t\tsys::terminate();")]),
+    ("u13-flush-forwards-to-write", "violations", "U13", "C15", "R16.1", "flush() hands the inner writer's write_all (of nothing) to checked(): buffered output is never flushed",
+     [("src/pipecheck.rs", "self.checked(Write::flush)", "self.checked(|w| w.write_all(&[]))")]),
+    ("u18-closure-budget-reset", "violations", "U18", "C18", "R18.3", "the try_fold closure recurses with a fresh budget",
+     [("src/msgpack.rs", "rest => Ok(total + next_value_size(rest, depth_limit)?),", "rest => Ok(total + next_value_size(rest, DEPTH_LIMIT)?),")]),
+    ("u10-replay-unbounded", "violations", "U10", "C04", "R04.2", "read_captured no longer limits the replayed prefix to the caller's buffer",
+     [("src/input.rs", "let size = std::cmp::min(buf.len(), self.captured_unread_size());", "let size = self.captured_unread_size();")]),
+    ("u09-utf16-endianness-swapped", "violations", "U09", "C07", "R07.2", "from_utf16 ignores the endianness it is given",
+     [("src/yaml/encoding.rs", "let decoder = Utf16Decoder::new(reader, endianness);", "let _ = endianness;\n\t\tlet decoder = Utf16Decoder::new(reader, Endianness::Big);")]),
+    ("u16-reader-no-flush", "violations", "U16", "C15", "R15.1", "the reader helper returns without flushing the translator",
+     [("src/main.rs", "\t\t.translate_reader(reader, from)\n\t\t.map_err(Failure::Translate)?;\n\ttranslator.flush().map_err(Failure::Flush)", "\t\t.translate_reader(reader, from)\n\t\t.map_err(Failure::Translate)?;\n\tOk(())")]),
+    ("u06-ext8-narrow", "violations", "U06", "C06", "R04.6", "ext 8 header added to the length in u8",
+     [("src/msgpack.rs", "Marker::Ext8 => 3 + widen(read_length::<u8>(input)?),", "Marker::Ext8 => widen(3 + read_length::<u8>(input)?),")]),
+    ("u02-unit-not-exact", "violations", "U02", "C02", "R07.8", "read_code_unit takes whatever one read returns",
+     [("src/yaml/encoding.rs", "\tsource.read_exact(&mut unit)?;\n\tOk(Some(unit))", "\tlet _ = source.read(&mut unit)?;\n\tOk(Some(unit))")]),
+    ("u01-trail-range-wide", "violations", "U01", "C07", "R07.3|R07.5", "TRAIL_SURROGATES starts one unit early",
+     [("src/yaml/encoding.rs", "const TRAIL_SURROGATES: RangeInclusive<u16> = 0xDC00..=0xDFFF;", "const TRAIL_SURROGATES: RangeInclusive<u16> = 0xDBFF..=0xDFFF;")]),
+    ("u12-position-double", "violations", "U12", "C07", "R07.8", "the shared unit reader advances the position twice per unit",
+     [("src/yaml/encoding.rs", "\t\tself.pos += unit.len() as u64;\n\t\tSome(Ok(unit))", "\t\tself.pos += 2 * unit.len() as u64;\n\t\tSome(Ok(unit))")]),
+    ("u12-error-as-eof", "violations", "U12", "C12", "R12.1", "a failing fill_buf ends the stream quietly",
+     [("src/yaml/encoding.rs", "\t\t\tErr(err) => return Some(Err(err)),\n\t\t};\n\t\tlet mut unit", "\t\t\tErr(_) => return None,\n\t\t};\n\t\tlet mut unit")]),
 ]
 
 
